@@ -99,7 +99,7 @@ impl Family for TunnelFam {
         prop_oneof![7 => plain, 1 => pressed].boxed()
     }
     fn case_budget_s(&self) -> u64 {
-        120
+        180
     }
     fn run(&self, case: &TunnelCase, _cx: &CaseCtx) -> CaseResult {
         let mut out = Outcome::new();
@@ -159,7 +159,12 @@ impl Family for TunnelFam {
                     }
                     (got, None)
                 };
-                let (wrote, (got, why)) = tokio::join!(writer, reader);
+                // the reader gives up after its deadline; a writer that is still stuck in its write then
+                // (the relay stopped reading) must not hold the case forever
+                let joined = tokio::time::timeout(Duration::from_secs(110), async { tokio::join!(writer, reader) }).await;
+                let Ok((wrote, (got, why))) = joined else {
+                    return Err(Fail::plain("C01.complete", format!("after 110 s the application was still blocked writing its {total} bytes and the echo had not come back (via {}, chunks {:?})", if case.via_http { "HTTP CONNECT" } else { "SOCKS5" }, case.chunks)));
+                };
                 ensure!(wrote, "C01.api", "the front-end stopped accepting bytes");
                 let mut want = greet.clone();
                 want.extend(keyed(1, 0, 0, total));
@@ -511,7 +516,10 @@ impl Family for SrvFinFam {
                             err.as_ref().map(|e| format!(", then its read failed: {e}")).unwrap_or_default()
                         );
                         // P1 towards the target: it observes end-of-stream (not a reset) after the data
-                        let ended = wait_until(1500, || conn.as_ref().is_some_and(|c| { let g = c.lock().unwrap(); g.eof || g.error.is_some() })).await;
+                        // (liveness: generous where it is armed - the machine may be busy -, short where the
+                        // listed finding makes it run out every time)
+                        let patience = if case.order == SrvOrder::ClientFirst { 1500 } else { 15_000 };
+                        let ended = wait_until(patience, || conn.as_ref().is_some_and(|c| { let g = c.lock().unwrap(); g.eof || g.error.is_some() })).await;
                         let err = conn.as_ref().and_then(|c| c.lock().unwrap().error.clone());
                         ensure!(err.is_none(), "C08.P1", "the client sent {} bytes and {how} ({:?}); the target received them but then its connection failed instead of ending: {}", up.len(), case.order, err.unwrap_or_default());
                         if !ended {
@@ -561,6 +569,10 @@ pub struct ProxyCase {
     /// terminator for k = 1..3)
     #[serde(default)]
     pub term_cut: Option<u8>,
+    /// this many more bytes follow in one burst (behind the header and its body prefix for a
+    /// forwarded request, behind the 200 for CONNECT): more than any relay buffer holds at once
+    #[serde(default)]
+    pub burst: usize,
 }
 
 pub struct ProxyFam;
@@ -579,8 +591,9 @@ impl Family for ProxyFam {
             1 => 60_000usize..64_513,
             1 => 65_537usize..70_000,
         ];
-        (c17::req_strategy(false), proptest::bool::weighted(0.15), proptest::collection::vec(any::<u16>(), 0..4), pad, proptest::option::weighted(0.4, 1u8..6))
-            .prop_map(|(req, refuse, cuts, pad_to, term_cut)| ProxyCase { req, refuse, cuts, pad_to, term_cut })
+        let burst = prop_oneof![12 => Just(0usize), 1 => Just(8192usize), 1 => Just(9000usize), 1 => Just(20_000usize), 1 => Just(70_000usize), 1 => Just(300_000usize)];
+        (c17::req_strategy(false), proptest::bool::weighted(0.15), proptest::collection::vec(any::<u16>(), 0..4), pad, proptest::option::weighted(0.4, 1u8..6), burst)
+            .prop_map(|(req, refuse, cuts, pad_to, term_cut, burst)| ProxyCase { req, refuse, cuts, pad_to, term_cut, burst })
             .boxed()
     }
     fn case_budget_s(&self) -> u64 {
@@ -661,16 +674,19 @@ impl Family for ProxyFam {
                         let ok = wait_until(3000, || origin.n_conns() == 1).await;
                         ensure!(ok, "C17.connect", "200 was sent but the destination has not accepted a connection ({desc})");
                         // early data + later data, exactly once, in order
-                        s.write_all(b"-later-bytes").await.map_err(|e| Fail::plain("C17.body", format!("tunnel write: {e}")))?;
+                        let mut later = b"-later-bytes".to_vec();
+                        later.extend(keyed(9, 0, 0, case.burst));
+                        s.write_all(&later).await.map_err(|e| Fail::plain("C17.body", format!("tunnel write: {e}")))?;
                         let mut want = req.body.clone();
-                        want.extend_from_slice(b"-later-bytes");
-                        let ok = wait_until(10_000, || origin.total_received() >= want.len()).await;
+                        want.extend_from_slice(&later);
+                        let ok = wait_until(20_000, || origin.total_received() >= want.len()).await;
                         let got = origin.conn(0).map(|c| c.lock().unwrap().received.clone()).unwrap_or_default();
                         ensure!(
                             ok && got == want,
                             "C17.body",
-                            "{} bytes followed the CONNECT header in the same write and 12 more were sent after the 200; the destination received {} bytes{} ({desc})",
+                            "{} bytes followed the CONNECT header in the same write and {} more were sent after the 200 in one burst; the destination received {} bytes{} ({desc})",
                             req.body.len(),
+                            later.len(),
                             got.len(),
                             if got == b"-later-bytes" { " - the bytes that arrived with the header were dropped" } else { "" }
                         );
@@ -686,6 +702,23 @@ impl Family for ProxyFam {
                     tokio::time::sleep(Duration::from_millis(60)).await;
                     wait_until(3000, || origin.conn(0).is_some_and(|c| c.lock().unwrap().received.windows(4).any(|w| w == b"\r\n\r\n"))).await;
                     tokio::time::sleep(Duration::from_millis(40)).await;
+                    let mut req = req.clone();
+                    if case.burst > 0 {
+                        // more body bytes in one burst; the origin's count must reach them (or stop growing)
+                        let more = keyed(9, 0, 0, case.burst);
+                        s.write_all(&more).await.map_err(|e| Fail::plain("C17.body", format!("write of the body burst: {e}")))?;
+                        req.body.extend_from_slice(&more);
+                        let mut last = (origin.total_received(), tokio::time::Instant::now());
+                        let floor = req.body.len();
+                        wait_until(20_000, || {
+                            let n = origin.total_received();
+                            if n != last.0 {
+                                last = (n, tokio::time::Instant::now());
+                            }
+                            n >= floor && last.1.elapsed() >= Duration::from_millis(250)
+                        })
+                        .await;
+                    }
                     let got = origin.conn(0).map(|c| c.lock().unwrap().received.clone()).unwrap_or_default();
                     c17::check_forwarded(&req, &b, &got)?;
                 }
@@ -703,6 +736,7 @@ impl Family for ProxyFam {
         out.class_if(case.refuse, "refusing-destination");
         out.class_if(!case.req.body.is_empty(), "bytes-behind-header");
         out.class_if(case.pad_to > 65_536, "header>64KiB");
+        out.class_if(case.burst >= 8192, "burst>=8KiB-behind-header");
         out.class_if(!case.cuts.is_empty() || case.term_cut.is_some(), "segmented");
         out.class_if(case.term_cut.is_some_and(|k| k <= 3), "cut-inside-terminator");
         out.class_if(case.pad_to > 0 && case.pad_to < 60_000, "header-size-near-KiB-multiple");
